@@ -146,7 +146,7 @@ theorem cropCell_spec (ev lst : String) (hev : ev ≠ "val") (s : State F) (hl :
   rw [hfa] at l5
   cases hh : cropHit (s.fa lst) (st.fenv "val") <;> simp only [cropHit] at hh
   · simp [exec_ite, exec_skip, BE.ok, BE.eval, l5, hh, l2, l3, l4, l1]
-  · simp [exec_ite, exec_brk, BE.ok, BE.eval, l5, hh, l2, l3, l4, l1]
+  · simp [exec_ite, exec_brk, BE.ok, BE.eval, l5, hh, l2, l3, l4]
 
 /-! ### one directional scan, as a function of its variables, range and index order -/
 
@@ -219,7 +219,6 @@ theorem lineLoop_spec (fuel : Nat) (o : Nat) (ho : o < no) (xs : List Nat) (hxs 
       rw [exec_seq, exec_setF, if_pos k1, k2]
       exact if_pos hc
     simp only [setS_same] at c4 c5
-    simp only [List.map_cons] at r
     cases hh : hitv (val o x)
     · simp only [hh, Bool.false_eq_true, if_false] at c4 c5
       have : r = loopOver _ (xs.map fun (k : Nat) => (k : Int)) (afterBody (exec fuel (.seq (.setF "val" ld) cell)
@@ -558,5 +557,49 @@ theorem crop_refines (s : State F) (fuel rows cols : Nat) (hs : s.ctl = .run)
   rw [h4, h4, h4, h4]
   · exact kernel_spec _ _ _ _ s _ hv hc hc hc rows cols hd fuel _ hs rfl rfl (by simp [setS]) (by simp [setS])
   all_goals exact hs
+
+/-! ### states that hold a raster -/
+
+/-- the four results of a finished run -/
+def progBounds (r : State F) : Trim.Bounds := ⟨r.ienv "ret0", r.ienv "ret1", r.ienv "ret2", r.ienv "ret3"⟩
+
+/-- row-major cells of a `rows × cols` raster -/
+def flatCells (rows cols : Nat) (cell : Nat → Nat → F) : List F :=
+  (List.range (rows * cols)).map fun k => cell (k / cols) (k % cols)
+
+omit [Fl F] in
+theorem flatCells_getD (rows cols : Nat) (cell : Nat → Nat → F) (d : F) (y x : Nat) (hy : y < rows) (hx : x < cols) :
+    (flatCells rows cols cell).getD (y * cols + x) d = cell y x := by
+  have hlt : y * cols + x < rows * cols :=
+    calc y * cols + x < y * cols + cols := by omega
+      _ = (y + 1) * cols := by rw [Nat.add_mul, Nat.one_mul]
+      _ ≤ rows * cols := Nat.mul_le_mul_right _ hy
+  have hdiv : (y * cols + x) / cols = y := by
+    rw [Nat.add_comm, Nat.add_mul_div_right _ _ (by omega), Nat.div_eq_of_lt hx, Nat.zero_add]
+  have hmod : (y * cols + x) % cols = x := by
+    rw [Nat.add_comm, Nat.add_mul_mod_self_right, Nat.mod_eq_of_lt hx]
+  simp [flatCells, List.getD, hlt, hdiv, hmod]
+
+/-- what the wrappers hand to the kernel: a 2-D array `data` and a 1-D array `lstName` -/
+def inputState (rows cols : Nat) (data : List F) (lstName : String) (lst : List F) : State F :=
+  { (State.empty : State F) with
+    fa := setS (setS (fun _ => []) "data" data) lstName lst
+    shp := setS (setS (fun _ => []) "data" [rows, cols]) lstName [lst.length] }
+
+/-- `s` is ready to run a kernel on the `rows × cols` raster `cell` and the list `lst` -/
+structure Holds (s : State F) (rows cols : Nat) (cell : Nat → Nat → F) (lstName : String) (lst : List F) : Prop where
+  run : s.ctl = .run
+  shape : s.shp "data" = [rows, cols]
+  cells : ∀ y x, y < rows → x < cols → cellAt s cols y x = cell y x
+  lshape : (s.shp lstName).length = 1
+  list : s.fa lstName = lst
+
+theorem inputState_holds (rows cols : Nat) (cell : Nat → Nat → F) (lstName : String) (h : lstName ≠ "data")
+    (lst : List F) : Holds (inputState rows cols (flatCells rows cols cell) lstName lst) rows cols cell lstName lst := by
+  have h' : ("data" = lstName) = False := by simp; exact fun e => h e.symm
+  refine ⟨rfl, by simp [inputState, setS, h'], ?_, by simp [inputState, setS], by simp [inputState, setS]⟩
+  intro y x hy hx
+  have := flatCells_getD rows cols cell Fl.nan y x hy hx
+  simpa [cellAt, inputState, setS, h'] using this
 
 end XrsVerif.IL
